@@ -1,5 +1,3 @@
-//go:build wip_c13
-
 package props
 
 import (
@@ -840,4 +838,3 @@ func c14Human(sym string) string {
 	}
 	return fmt.Sprintf("%s%+dd", base, off)
 }
-
